@@ -351,10 +351,12 @@ func runC13(r *Rng, n int, replay string) {
 		}
 		results := make(chan result, 64)
 		var wg sync.WaitGroup
+		var returned int64 // openers that have come back
 		openOne := func(name string) {
 			wg.Add(1)
 			go func() {
 				defer wg.Done()
+				defer atomic.AddInt64(&returned, 1)
 				f, err := tfs.Open(name)
 				if err != nil {
 					results <- result{name: name, err: err}
@@ -388,6 +390,15 @@ func runC13(r *Rng, n int, replay string) {
 		for b := 0; b < blocks; b++ {
 			if mode == "cancel" && b == point {
 				cancel()
+				// the stream is stalled right now (nothing further is released until this check is over): every Open that
+				// is pending must come back because of the cancellation, not because the stream happens to go on
+				deadline := time.Now().Add(3 * time.Second)
+				for atomic.LoadInt64(&returned) < int64(started) && time.Now().Before(deadline) {
+					time.Sleep(200 * time.Microsecond)
+				}
+				if atomic.LoadInt64(&returned) < int64(started) {
+					c.fail(hdr+": after the caller cancelled, with the stream stalled, a pending Open did not return", "stream:cancel:open-stuck-while-stalled")
+				}
 			}
 			sr.release(512)
 			if b%3 == 0 {
